@@ -212,6 +212,11 @@ func (ctx aeadContentCipher) decrypt(key, aad []byte, parts *aeadParts) ([]byte,
 		return nil, err
 	}
 
+	// The AEAD panics for an invalid nonce, while the iv is from the peer.
+	if len(parts.iv) != aead.NonceSize() {
+		return nil, ErrCryptoFailure
+	}
+
 	return aead.Open(nil, parts.iv, append(parts.ciphertext, parts.tag...), aad)
 }
 
